@@ -252,6 +252,65 @@ Proof. unfold gap.
   rewrite E. apply k_refl. Qed.
 End Stop.
 
+(* ------------------------------------------------------------------ what a certificate says about DISTANCES *)
+(* a point satisfying the variational inequality up to g is, in squared distance, within 2g of every feasible point
+   (x itself need not be feasible here; with g <= 0 it is at least as near to x0 as every feasible point) *)
+Theorem variational_near_optimal (C : vec -> Prop) (x0 x : vec) (g : F) :
+  (forall z, C z -> dot n (vsub x0 x) (vsub z x) <= g) ->
+  forall z, C z -> dist2 x0 x <= dist2 x0 z + (g + g).
+Proof. intros Hc z Hz. pose proof (pythagoras_bound x0 x z g (Hc z Hz)) as P.
+  pose proof (dist2_nonneg x z) as N.
+  apply (proj2 (le_sub F _ _)). apply (proj1 (le_sub F _ _)) in P.
+  replace (dist2 x0 z + (g + g) - dist2 x0 x)
+    with ((dist2 x0 z - (dist2 x0 x + dist2 x z - (g + g))) + dist2 x z) by ring.
+  now apply add_nonneg. Qed.
+
+Corollary variational_is_nearest (C : vec -> Prop) (x0 x : vec) :
+  (forall z, C z -> dot n (vsub x0 x) (vsub z x) <= 0) ->
+  forall z, C z -> dist2 x0 x <= dist2 x0 z.
+Proof. intros Hc z Hz. pose proof (variational_near_optimal C x0 x 0 Hc z Hz) as T.
+  replace (dist2 x0 z + (0 + 0)) with (dist2 x0 z) in T by ring. exact T. Qed.
+
+Lemma nonneg_sum_zero a b : 0 <= a -> 0 <= b -> a + b = 0 -> a = 0 /\ b = 0.
+Proof. intros Ha Hb E.
+  assert (Ea : 0 - a = b). { transitivity (a + b - a); [now rewrite E|ring]. }
+  assert (Eb : 0 - b = a). { transitivity (a + b - b); [now rewrite E|ring]. }
+  split; apply (k_antisym F); try assumption; apply (proj2 (le_sub F _ _)).
+  - rewrite Ea. exact Hb.
+  - rewrite Eb. exact Ha. Qed.
+
+Lemma sumn_sqr_zero m (f : nat -> F) : sumn m (fun i => f i * f i) = 0 -> forall i, (i < m)%nat -> f i = 0.
+Proof. induction m as [|m IH]; intros H i Hi; [lia|]. cbn [sumn] in H.
+  assert (A : 0 <= sumn m (fun i => f i * f i)) by (apply sumn_nonneg; intros; apply sqr_nonneg).
+  destruct (nonneg_sum_zero _ _ A (sqr_nonneg F (f m)) H) as [H1 H2].
+  destruct (Nat.eq_dec i m) as [->|Hne].
+  - apply (sum_sqr_zero F (f m) 0). rewrite H2. ring.
+  - apply IH; [exact H1|lia]. Qed.
+
+Lemma dist2_zero_veq (a b : vec) : dist2 a b <= 0 -> veq n a b.
+Proof. intros H. assert (E : dist2 a b = 0) by (apply (k_antisym F); [exact H|apply dist2_nonneg]).
+  unfold dist2, C05_Dykstra.dist2, dot in E. intros i Hi.
+  pose proof (sumn_sqr_zero n (vsub a b) E i Hi) as Z. unfold vsub in Z.
+  replace (a i) with (a i - b i + b i) by ring. rewrite Z. ring. Qed.
+
+(* THE nearest point: two feasible points that both satisfy the (exact) variational inequality coincide on [0, n) *)
+Theorem nearest_unique (C : vec -> Prop) (x0 x x' : vec) :
+  (forall z, C z -> dot n (vsub x0 x) (vsub z x) <= 0) ->
+  (forall z, C z -> dot n (vsub x0 x') (vsub z x') <= 0) -> C x -> C x' -> veq n x x'.
+Proof. intros H1 H2 Hx Hx'. apply dist2_zero_veq.
+  pose proof (two_runs_agree_feasible C x0 x x' 0 0 H1 H2 Hx Hx') as T.
+  replace (0 + 0) with 0 in T by ring. exact T. Qed.
+
+(* a Dykstra iterate that is itself feasible and whose gap is <= 0 IS a nearest feasible point (and by
+   nearest_unique the only one) — the exact-arithmetic statement behind "nearest up to the accuracy of the threshold" *)
+Theorem feasible_iterate_is_nearest (PA PB : nat -> vec -> vec) (A B : vec -> Prop) :
+  obtuse A PA -> obtuse B PB -> forall x0 k, (1 <= k)%nat ->
+  gap F n (iter F frz PA PB k (init F frz x0)) <= 0 ->
+  forall z, A z -> B z -> dist2 x0 (sx (iter F frz PA PB k (init F frz x0))) <= dist2 x0 z.
+Proof. intros oA oB x0 k Hk Hg z Az Bz.
+  apply (variational_is_nearest (fun z => A z /\ B z)); [|split; assumption].
+  intros z' [Az' Bz']. apply (k_trans F _ _ _ (certificate PA PB A B oA oB x0 k z' Hk Az' Bz') Hg). Qed.
+
 (* ------------------------------------------------------------------ feasible inputs are fixed points *)
 Section Fixed.
 Context (PA PB : nat -> vec -> vec) (x0 : vec).
